@@ -130,7 +130,7 @@ def run(ctx):
         rep = json.load(open(ctx.replay_in))
         for l in rep.get('harness_lines') or [rep.get('harness_line')]:
             if not l: continue
-            if l.split()[0] in ('rtf', 'rtd', 'sd', 'sf', 'jd', 'jf', 'json', 'isweep', 'irand64', 'fsweep32', 'frand64'):
+            if l.split()[0] in ('rtf', 'rtd', 'sd', 'sf', 'jd', 'jf', 'json', 'phex', 'phtyp', 'isweep', 'irand64', 'fsweep32', 'frand64'):
                 impl_only.append(('replay', l))
             else:
                 add('replay', l)
@@ -315,6 +315,41 @@ def gen_cases(ctx, rng, add, impl_only, doc_expect):
                     add('count_x_tail', 'pint ' + U.hx(t)); add('count_x_tail', 'jint ' + U.hx(t))
                     for ty in (types if (T or tl[:1] in (b'.', b'e', b'E', b'p', b'P') or rng.random() < 0.25) else rng.sample(types, 2)):
                         add('count_x_tail', 'ptyp %s %s' % (ty, U.hx(t))); add('count_x_tail', 'jtyp %s %s' % (ty, U.hx(t)))
+    # ---- hex entry points of pparseint.h (parse_hex_integer, parse_hex_<type>): implementation-side oracle only (python big
+    #      integers; there is no Coq model of the hex parser). Significant digit count x leading zeros x first/second digit x sign.
+    hexes = set()
+    for nd in range(1, 21):
+        reps = 12 if nd >= 15 else 3
+        for _ in range(reps):
+            hexes.add('%x' % rng.randrange(16 ** (nd - 1), 16 ** nd))
+        hexes.add('f' * nd); hexes.add('1' + '0' * (nd - 1)); hexes.add('8' + '0' * (nd - 1)); hexes.add('7' + 'f' * (nd - 1))
+        if nd >= 2:
+            for d1 in range(1, 16):      # first digit d1, second digit >= d1: the wrapped value stays above the previous partial value
+                d2 = rng.randrange(d1, 16)
+                hexes.add('%x%x' % (d1, d2) + ''.join(rng.choice('0123456789abcdef') for _ in range(nd - 2)))
+                if nd >= 16: hexes.add('%x%x' % (d1, d2) + '0' * (nd - 2)); hexes.add('%x' % d1 + 'f' * (nd - 1))
+    for lo, hi in U.TYPES.values():
+        for d in (-1, 0, 1, 2):
+            hexes.add('%x' % (abs(lo) + d)); hexes.add('%x' % (hi + d))
+    for v in (TWO64 - 1, TWO64, TWO64 + 1, TWO64 + 0x10, 2 * TWO64 - 1, 0x12000000000000000, 0x1FFFFFFFFFFFFFFFF, 0xFFFFFFFFFFFFFFFFF, 2 ** 63 - 1, 2 ** 63, 2 ** 63 + 1):
+        hexes.add('%x' % v)
+    hlines = []
+    for h in sorted(hexes):
+        forms = [h]
+        if rng.random() < 0.5: forms.append('0' * rng.choice([1, 2, 3, 16, 20]) + h)
+        for f in forms:
+            for sg in ('', '-'):
+                body = f.upper() if rng.random() < 0.3 else f
+                t = (sg + rng.choice(['0x', '0x', '0X']) + body).encode() + rng.choice([b'', b'', b' ', b',', b';', b'}', b'g', b'x'])
+                hlines.append(t)
+    for t in [b'', b'-', b'0', b'0x', b'-0x', b'0xg', b'-0xg', b'x10', b'0x1.8', b'0x1p3', b'0x1P3', b'-0x1.', b'0xffffffffffffffff.8', b'0x10000000000000000p1',
+              b'0x0', b'-0x0', b'0x00000000000000000000', b'0xFFFFFFFFFFFFFFFF', b'-0xFFFFFFFFFFFFFFFF', b'-0x8000000000000000', b'-0x8000000000000001', b'0x7fffffffffffffff',
+              b'0x8000000000000000', b'12', b'-12', b'0b1']:
+        hlines.append(t)
+    for t in hlines:
+        impl_only.append(('hex_text', 'phex ' + U.hx(t)))
+        for ty in (types if (T or len(t) >= 17 or rng.random() < 0.3) else rng.sample(types, 2)):
+            impl_only.append(('hex_text', 'phtyp %s %s' % (ty, U.hx(t))))
     # ---- coerce grid
     cvals = set([0, 1, 2, 2 ** 63 - 1, 2 ** 63, 2 ** 63 + 1, TWO64 - 1, TWO64 - 2])
     for lo, hi in U.TYPES.values():
@@ -510,6 +545,49 @@ def prop_int_parse(cmd, ty, text, irep):
     return None
 
 
+HEX_RE = re.compile(rb'^(-?)0[xX]([0-9a-fA-F]*)(.*)$', re.S)
+
+
+def prop_hex_parse(cmd, ty, text, irep):
+    """pparseint.h hex parsers against the property (exact big integers): a text [-]0x<hex digits> denoting a value outside the
+    target type (or >= 2^64) must give OVERFLOW / UNDERFLOW, never a wrapped value; '.', 'p', 'P' after the digits (hex float
+    notation) must not be accepted; a value inside the type written with at most 16 hex digits must be accepted."""
+    m = HEX_RE.match(text)
+    if not m or not m.group(2): return None          # not a hex integer text: the property says nothing
+    neg, digits, rest = bool(m.group(1)), m.group(2), m.group(3)
+    mag = int(digits, 16); v = -mag if neg else mag
+    cty = ('uint' + ty[1:] if ty[0] == 'u' else 'int' + ty[1:]) if ty else ''
+    fn = 'parse_hex_integer' if ty is None else 'parse_hex_%s' % ('uint' if ty == 'u32' else cty)
+    floaty = rest[:1] in (b'.', b'p', b'P')
+    ok = irep.startswith('OK')
+    shown = text[:60].decode('latin1')
+    consumed_want = len(digits) + 2 + (1 if neg else 0)
+    if irep.startswith('ODD') or irep.startswith('CRASH'):
+        return ('parse-hex-odd', '%s("%s") = %s' % (fn, shown, irep))
+    if ty is None:
+        if ok:
+            _, ineg, x, k = irep.split()
+            if floaty: return ('parse-hex-integer-accepts-float-notation', '%s accepted "%s" (hex fraction/exponent notation) as an integer' % (fn, shown))
+            if mag >= TWO64: return ('parse-hex-integer-wrap', '%s("%s"): the text denotes %d >= 2^64 but %s was returned without overflow error' % (fn, shown, mag, x))
+            if int(x) != mag or int(ineg) != int(neg) or int(k) != consumed_want:
+                return ('parse-hex-integer-wrong-value', '%s("%s") returned sign %s value %s consumed %s' % (fn, shown, ineg, x, k))
+        elif mag < TWO64 and len(digits) <= 16 and not floaty:
+            return ('parse-hex-integer-rejects-valid', '%s("%s") = %s although the value fits 64 bits' % (fn, shown, irep))
+        return None
+    lo, hi = U.TYPES[ty]
+    if ok:
+        _, val, k = irep.split()
+        if floaty: return ('parse-hex-integer-accepts-float-notation', '%s accepted "%s" (hex fraction/exponent notation) as an integer' % (fn, shown))
+        if not (lo <= v <= hi):
+            key = 'parse-hex-integer-wrap' if mag >= TWO64 else 'parse-hex-narrowing:%s' % ty
+            return (key, '%s("%s"): the text denotes %d, outside [%d, %d], but %s was stored without overflow/underflow error' % (fn, shown, v, lo, hi, val))
+        if int(val) != v or int(k) != consumed_want:
+            return ('parse-hex-wrong-value:%s' % ty, '%s("%s") stored %s (consumed %s), the text denotes %d' % (fn, shown, val, k, v))
+    elif lo <= v <= hi and len(digits) <= 16 and not floaty and not (neg and lo == 0):
+        return ('parse-hex-rejects-valid:%s' % ty, '%s("%s") = %s although %d lies within the type' % (fn, shown, irep, v))
+    return None
+
+
 def prop_coerce(ty, neg, value, irep):
     if ty == 'bool': return None
     lo, hi = U.TYPES[ty]
@@ -598,6 +676,10 @@ def judge_impl_only(ctx, klass, line, i, doc_expect, oracle_q):
         elif int(b) != want_bits:
             # float = (float)(double) by design; judged against the same two-step rounding
             viol(ctx, 'corr:parse-float-rounding', '%s("%s") = bits %s, two-step rounding gives %d' % (name, text, b, want_bits), line, None, i)
+        return
+    if cmd in ('phex', 'phtyp'):
+        pv = prop_hex_parse(cmd, f[1] if cmd == 'phtyp' else None, U.unhx(f[-1]), i)
+        if pv: viol(ctx, pv[0], pv[1], line, None, i, {'text': U.unhx(f[-1]).decode('latin1')})
         return
     if cmd == 'json':
         exp = doc_expect.get(line)
